@@ -19,8 +19,9 @@
      if none), it must hold on_switch_in(from, to) as the LAST of what it holds
      when the request came through switch(), it releases everything it holds
      in order and delivers at once from then on;
-   - a switch request must be honoured: one that is made while the loop is
-     entering a world (and therefore cannot be) is a failure.
+   - a switch request must be honoured, also one made by a callback of the
+     world being entered: the loop goes on entering the new target (the world
+     abandoned half-way keeps what it had not delivered yet).
    After each scripted action the checker knows which entries must follow
    (b_exp); anything else is a failure.  No proofs in this file. *)
 From Coq Require Import ZArith List Bool Arith.
@@ -76,12 +77,25 @@ Section Spec.
     let '(s3, e, l3) := handle_call h s2 in
     let held := match alookup e (s_worlds s3) with Some (_, q) => q | None => [] end in
     let ok := match tag with Some (f, t) => last_is held (VIn f t) | None => true end in
-    if ok then
-      match (emit l3 ;; upd (set_cur e h) ;; enable react e ;; upd (set_inh false)) s3 with
-      | Some (_, _, RExn (XSW _ _ _ _)) => None      (* a switch request that cannot be honoured *)
-      | r => r
-      end
+    if ok then (emit l3 ;; upd (set_cur e h) ;; enable react e ;; upd (set_inh false)) s3
     else None.
+
+  (* the loop honours a switch request, and every further request made while
+     it enters the target; n bounds the number of rounds *)
+  Fixpoint a_handler (n : nat) (h : Z) (cc cn : bool) (tag : option (Z * Z)) : M := fun s =>
+    match n with
+    | O => None
+    | S n' =>
+        match a_enter h cc cn tag s with
+        | None => None
+        | Some (s1, l1, RExn (XSW h2 cc2 cn2 tag2)) =>
+            match a_handler n' h2 cc2 cn2 tag2 s1 with
+            | None => None
+            | Some (s2, l2, r2) => Some (s2, l1 ++ l2, r2)
+            end
+        | Some (s1, l1, r1) => Some (s1, l1, r1)
+        end
+    end.
 End Spec.
 
 Fixpoint a_react_n (n : nat) : ekind -> action -> M :=
@@ -106,7 +120,7 @@ Definition act13 (b : s13) (a : action) : option s13 :=
   match a_body (a_react_n (b_fuel b)) a (b_st b) with
   | None | Some (_, _, RNorm) => None
   | Some (s1, l1, RExn (XSW h cc cn tag)) =>          (* the request reaches the loop *)
-      match a_enter (a_react_n (b_fuel b)) h cc cn tag s1 with
+      match a_handler (a_react_n (b_fuel b)) (b_fuel b) h cc cn tag s1 with
       | Some (s2, l2, _) => Some (with_st s2 (l1 ++ l2) false b)
       | None => None
       end
@@ -187,8 +201,8 @@ Fixpoint ops13 (s : state) (ops : list (op * list entry)) : bool :=
 Definition holds13_b (c : rcase) : bool := ops13 init (c_ops c).
 Definition holds13 (c : rcase) : Prop := holds13_b c = true.
 
-(* known findings K5 and K10 *)
-Definition known13_b (c : rcase) : bool := any_entry k5_entry c || any_entry k10_entry c.
+(* known finding K5 *)
+Definition known13_b (c : rcase) : bool := any_entry k5_entry c.
 
 Definition C13_case := rcase.
 Definition C13_verdict (c : C13_case) : nat :=
